@@ -49,6 +49,12 @@ Pipelines(variant) ==
       status_line  |-> <<"ErrorWrap">> \o (IF fixed THEN <<"ProblemScrub">> ELSE <<>>),
       header_value |-> <<"ErrorWrap">> \o (IF fixed THEN <<"ProblemScrub">> ELSE <<>>),
       location_host|-> <<"UrlHost", "ErrorWrap">> \o (IF fixed THEN <<"ProblemScrub">> ELSE <<>>),
+      \* the same three kinds of fetch error shown not as an item of their own (a Failure) but inline by
+      \* the item that wanted the document: Activity.header (actor), Actor.footer (outbox); both call
+      \* style.Problem directly
+      status_line_inline  |-> <<"ErrorWrap">> \o (IF fixed THEN <<"ProblemScrub">> ELSE <<>>),
+      header_value_inline |-> <<"ErrorWrap">> \o (IF fixed THEN <<"ProblemScrub">> ELSE <<>>),
+      location_host_inline|-> <<"UrlHost", "ErrorWrap">> \o (IF fixed THEN <<"ProblemScrub">> ELSE <<>>),
       field_error  |-> <<"Scrub", "ErrorWrap">> \o (IF fixed THEN <<"ProblemScrub">> ELSE <<>>),
       hook_output  |-> <<"SetLength">>,
       typed_text   |-> <<"SetLength">> ]
@@ -59,9 +65,11 @@ Run(stages, tok) == IF stages = <<>> THEN tok ELSE Run(Tail(stages), Stage(Head(
 AtSink(variant, src, tok) == Run(Pipelines(variant)[src], tok)
 Clean(tok) == tok.enc = "raw" => tok.class \in {"print", "nl"}
 (* which (source, encoding) pairs can occur at all *)
+NetSources == {"status_line", "header_value", "location_host",
+               "status_line_inline", "header_value_inline", "location_host_inline"}
 Expressible(src, enc) ==
-    CASE enc = "raw"     -> src \notin {"status_line", "header_value", "location_host"}
+    CASE enc = "raw"     -> src \notin NetSources
       [] enc = "htmlref" -> src \in {"html_text", "html_attr", "markdown", "json_field", "gemtext", "plaintext"}
-      [] enc = "pct"     -> src \in {"link_url", "id_host", "location_host"}
-      [] enc = "netraw"  -> src \in {"status_line", "header_value", "location_host"}
+      [] enc = "pct"     -> src \in {"link_url", "id_host", "location_host", "location_host_inline"}
+      [] enc = "netraw"  -> src \in NetSources
 =============================================================================
